@@ -211,10 +211,33 @@ func (st *State) Marshal(w io.Writer) error {
 }
 
 // Unmarshal reads and parses a previous dump of the state.
-// All the parsed key/values are added to the store. As of now,
-// Unmarshal does not empty the existing store from any values
-// before unmarshaling from the given reader.
+// The existing entries are removed from the store first, so that
+// it ends up holding exactly the parsed key/values (as needed when
+// restoring a snapshot onto a state which is not empty).
 func (st *State) Unmarshal(r io.Reader) error {
+	q := query.Query{
+		Prefix:   st.namespace.String(),
+		KeysOnly: true,
+	}
+	results, err := st.dsRead.Query(q)
+	if err != nil {
+		return err
+	}
+	var oldKeys []ds.Key
+	for res := range results.Next() {
+		if res.Error != nil {
+			results.Close()
+			return res.Error
+		}
+		oldKeys = append(oldKeys, ds.NewKey(res.Key))
+	}
+	results.Close()
+	for _, k := range oldKeys {
+		if err := st.dsWrite.Delete(k); err != nil {
+			return err
+		}
+	}
+
 	dec := codec.NewDecoder(r, st.codecHandle)
 	for {
 		var entry serialEntry
